@@ -190,9 +190,10 @@ CLAIMS.update({
      'directed rounding and reduced outward to 22 significant bits. 24 unary and 2 binary functions and the 12 named constants x dyadic '
      'operands x contexts of precision 1..8 (10 thorough) in all 8 modes, with a subnormal range, with overflow, and fixed-point targets '
      '(the two-pass precision selection).'),
-     note='Trusted base: MPFR\'s directed rounding. Decided only where both ends of the 22-bit enclosure round alike (the rest is counted as '
-          'inconclusive) and where values fit TLC\'s integers (2^-23 <= |result| < 2^22): precisions of several hundred digits are outside '
-          'the specification\'s reach.'),
+     note='Trusted base: MPFR\'s directed rounding. Small contexts (every family feature: subnormals, overflow, fixed-point position) are decided '
+          'by Rounding!Expect where both ends of the 22-bit enclosure round alike (the rest is counted as inconclusive). Wide precisions (24 .. 237 '
+          'digits quick, .. 500 thorough; MPFloat contexts, all 8 modes) are decided by spec/WideRound.tla on multi-limb integers: the enclosure of the '
+          'true magnitude must lie inside the interval of reals that round to the returned significand (MCWideRound checks the limb arithmetic).'),
 })
 
 CLAIMS.update({
@@ -221,6 +222,7 @@ CLAIMS.update({
 ENGINES = [
  ('Agree', 'spec/Agree.tla', ['C11'], 'bit-for-bit agreement of result structures'),
  ('Elementary', 'spec/Elementary.tla', ['C03'], 'correct rounding given an enclosure of the true value'),
+ ('WideRound', 'spec/WideRound.tla', ['C03'], 'correct rounding at wide precisions on multi-limb integers'),
  ('FactMachine', 'spec/FactMachine.tla', ['C13'], 'abstract machine with analysis facts checked on every step'),
  ('Runtime', 'spec/Runtime.tla', ['C18'], 'process-level runtime model: threads, cache, boundary copies, scoped MPFR settings'),
  ('RuntimeSched', 'spec/RuntimeSched.tla', ['C18'], 'schedule generator (history variable over Runtime behaviours)'),
